@@ -204,7 +204,25 @@ func (g *specGen) bodySpec(depth int, nlabels int, noDyn bool) *SpecM {
 					d = &SpecM{Kind: SLiteral, Literal: cty.NullVal(p.Type)}
 				}
 			}
-			return &SpecM{Kind: SDefault, Primary: p, Default: d}
+			// either side may sit under a type-preserving wrapper (hcldec walks through
+			// wrappers when it collects the schema and the variables of a Default)
+			wrap := func(x *SpecM, label string) *SpecM {
+				if x.Kind != SAttr {
+					return x
+				}
+				switch rapid.IntRange(0, 5).Draw(t, label) {
+				case 0:
+					return &SpecM{Kind: SValidate, Nested: x}
+				case 1:
+					return &SpecM{Kind: SRefine, Nested: x}
+				case 2:
+					if x.Type == cty.String {
+						return &SpecM{Kind: STransformFunc, Nested: x, Func: "upper_or_same", ViaExpr: rapid.Bool().Draw(t, "via_expr")}
+					}
+				}
+				return x
+			}
+			return &SpecM{Kind: SDefault, Primary: wrap(p, "wrap_primary"), Default: wrap(d, "wrap_default")}
 		case k == 7:
 			w := attrSpec()
 			if w.Kind == SAttr {
